@@ -164,7 +164,8 @@ def gen_alloc_cases(rng, n, big, faults):
     lines = []
     stats = {'schemas': 0, 'inputs': 0, 'masks': 0}
     while stats['inputs'] < n:
-        sch = rand_schema(rng, big=big)
+        # half of the schemas are rich in fields that own heap blocks (strings, bytes, sub-messages)
+        sch = rand_schema(rng, big=big, types=([T_STRING] * 4 + [T_BYTES] * 3 + [T_MESSAGE] * 3 + list(range(17))) if rng.random() < 0.5 else None)
         lines += sch.lines()
         stats['schemas'] += 1
         for _ in range(rng.choice([3, 5])):
@@ -217,7 +218,10 @@ def gen_valid_cases(rng, n, big, merge=False):
     while stats['encodings'] < n:
         if merge:
             # bias towards embedded messages (incl. inside oneofs) so that there is something to merge
-            sch = rand_schema(rng, big=big, types=[T_MESSAGE] * 6 + list(range(17)), nmsgs=rng.choice([2, 3, 3]))
+            # and towards declared defaults / present-but-default values: what a later occurrence holds then looks
+            # exactly like "unset" to a merge that compares values instead of presence
+            sch = rand_schema(rng, big=big, types=[T_MESSAGE] * 6 + [T_STRING, T_BYTES] * 2 + list(range(17)), nmsgs=rng.choice([2, 3, 3]), dflt_p=0.6)
+            pbgen.DEFAULT_EQ_P = 0.4
         else:
             sch = rand_schema(rng, big=big)
         lines += sch.lines()
@@ -236,6 +240,7 @@ def gen_valid_cases(rng, n, big, merge=False):
                     knobs['split_msg'] = rng.random() < 0.6
                     knobs['multi_occ'] = rng.random() < 0.7
                     knobs['multi_oneof'] = rng.random() < 0.7
+                    knobs['matrix'] = rng.random() < 0.5
                 b = encode(sch, m, rng, knobs)
                 lines.append('unpack %d X%s' % (ty, b.hex()))
                 stats['encodings'] += 1
